@@ -69,13 +69,18 @@ def like(a, pat):
 def cmp(op, a, b):
     if a is None or b is None:
         return None
+    if isinstance(a, bytes) != isinstance(b, bytes):
+        # a BLOB operand is bound as a BLOB; numbers and texts sort before every BLOB and are never equal to one
+        a, b = (1, 0) if isinstance(a, bytes) else (0, 1)
     return {"=": a == b, "!=": a != b, ">": a > b, "<": a < b, ">=": a >= b, "<=": a <= b}[op]
 
 
 def dec_value(v):
     if isinstance(v, list):
         kind, items = v
-        return {"list": list, "tuple": tuple, "set": set}[kind](items)
+        if kind == "bytes":
+            return bytes.fromhex(items)
+        return {"list": list, "tuple": tuple, "set": set}[kind]([dec_value(x) for x in items])
     return v
 
 
@@ -469,6 +474,15 @@ def st_int():
     return st.integers(-3, 6) | st.integers(-10**9, 10**9) | st.sampled_from([0, 1, 2, 0.0, 1.0, 2.0, 5.0, True, False, 2.5])
 
 
+BYTES_VALUES = ["", "61", "6162", "00ff", "27204f5220313d31", "4e554c4c"]
+
+
+def st_operand(col, nullable=True):
+    """a scalar operand: as st_colval, now and then a bytes value (a BLOB: one bound value, data like any other)"""
+    return st_colval(col, nullable) | st_colval(col, nullable) | st_colval(col, nullable) | \
+        st.sampled_from(BYTES_VALUES).map(lambda h: ["bytes", h])
+
+
 def st_colval(col, nullable=True):
     base = st_int() if col in ("tb.id", "tb.n", "id", "n") else st_str()
     return (base | st.none()) if nullable else base
@@ -494,15 +508,15 @@ def st_cond(draw, depth=0):
     istext = col in ("tb.s", "tb.t")
 
     def lst():
-        items = draw(st.lists(st_colval(col, nullable=True), max_size=4))
+        items = draw(st.lists(st_operand(col, nullable=True), max_size=4))
         k = draw(st.sampled_from(["list", "tuple"]))
         return [k, items]
     if kind == "c2":
-        return ["c2", col, draw(st.one_of(st_colval(col), st.just(None), st.builds(lambda: lst())))]
+        return ["c2", col, draw(st.one_of(st_operand(col), st.just(None), st.builds(lambda: lst())))]
     ops = ["=", "!=", "IN", "NOT IN", "IS NULL", "IS NOT NULL", ">", "<", ">=", "<="] + (["LIKE", "NOT LIKE"] * 2 if istext else [])
     op = draw(st.sampled_from(ops))
     if op in ("=", "!="):
-        val = draw(st.one_of(st_colval(col), st.builds(lambda: lst())))
+        val = draw(st.one_of(st_operand(col), st.builds(lambda: lst())))
     elif op in ("IN", "NOT IN"):
         if draw(st.integers(0, 3)) == 0:
             items = draw(st.lists(st_colval(col, nullable=False), max_size=4, unique=True))
@@ -514,7 +528,7 @@ def st_cond(draw, depth=0):
     elif op in ("LIKE", "NOT LIKE"):
         val = draw(st_str())
     else:
-        val = draw(st_colval(col))
+        val = draw(st_operand(col))
     opcase = draw(st.sampled_from(["upper", "lower", "title"]))
     op = {"upper": op, "lower": op.lower(), "title": op.title()}[opcase]
     c = ["c", col, op, val]
